@@ -20,7 +20,7 @@ import numpy as np
 import core
 import gen
 
-PROOF_MODULES = ["UnytProofs.C18", "UnytProofs.C18Equiv", "UnytProofs.C18Order", "UnytProofs.C18Reuse"]
+PROOF_MODULES = ["UnytProofs.C18", "UnytProofs.C18Equiv", "UnytProofs.C18Order", "UnytProofs.C18Reuse", "UnytProofs.C18Alias"]
 HARNESS = os.path.dirname(os.path.abspath(__file__))
 PLUGINS = ("c18",)
 # tables of other properties this model reads: refreshed best-effort (their own checks own them; a
@@ -369,6 +369,51 @@ def copy_wire(spec):
         return None, False
 
 
+ALIAS_M_OBS = {}   # "Class.method" -> [copying calls observed, calls that changed the input]
+
+
+def compare_method_alias(chk, M):
+    """the may-alias table of unyt/array.py read back against the live classes (every `unyt_array.<m>` / `unyt_quantity.<m>`
+    routine of the table has the parameter list `inspect.signature` reports), and its verdict on `self` against the
+    copying calls of the conversion sweep: an input that changed needs the verdict 'may be written'"""
+    import inspect
+
+    import unyt
+
+    try:
+        A = json.load(open(os.path.join(core.BUILD, "extract_c18_alias.json"), encoding="utf-8"))["array_routines"]
+    except Exception as e:  # noqa: BLE001
+        chk.disagree("translator", f"no array_routines in extract_c18_alias.json: {e}")
+        return
+    names = sorted(A)
+    reps = M.ask([f"c18.am.params\t{n}" for n in names] + [f"c18.am.written\t{n}" for n in names])
+    written = {}
+    for n, rp, rw in zip(names, reps[:len(names)], reps[len(names):]):
+        got = [x for x in (rp[1].split(",") if len(rp) > 1 else []) if x]
+        written[n] = [x for x in (rw[1].split(",") if len(rw) > 1 else []) if x] if rw and rw[0] == "ok" else None
+        if rp[0] != "ok" or got != A[n]:
+            chk.disagree("c18.am.params", f"{n}: driver {rp} vs translator {A[n]}")
+        if "." in n:
+            cls, m = n.split(".", 1)
+            f = inspect.getattr_static(getattr(unyt, cls), m, None)
+            f = f.fget if isinstance(f, property) else f
+            if f is not None and hasattr(f, "__code__"):
+                chk.case(("alias-method", n))
+                live = [p for p in inspect.signature(f).parameters]
+                if live != A[n]:
+                    chk.disagree("c18.am.params", f"{n}: live parameters {live}, table {A[n]}")
+    for meth, (n_obs, n_chg) in sorted(ALIAS_M_OBS.items()):
+        chk.case(("alias-method-obs", meth))
+        if meth not in written or written[meth] is None:
+            chk.count("alias:method-not-in-array-table")
+            continue
+        if n_chg and "self" not in written[meth]:
+            chk.disagree("c18.am.written", f"{meth}: the input changed in {n_chg} of {n_obs} copying calls, the model's verdict on self is 'cannot be written'")
+        else:
+            chk.count("alias:method-self-intact:confirmed" if not n_chg else "alias:method-self-written:predicted", n_obs)
+    chk.count("alias:array-routines-read-back", len(names))
+
+
 def compare_copy(chk, spec, obs, rep, outcome):
     """copying routes: the model's effect list on the input is the regenerated self-write closure of the
     method; it must be empty exactly when the input is observed unchanged, and (for the modelled
@@ -398,6 +443,11 @@ def compare_copy(chk, spec, obs, rep, outcome):
         chk.disagree("c18.copy.outcome", f"{tag}: model {m_exc} vs unyt {obs['exc']} ({obs['msg'][:60]})", spec)
         return
     changed = bool(obs["delta"]) or bool(obs["unit_obj_delta"])
+    meth = COPY_METHOD.get(spec["route"])
+    if meth and meth.startswith("unyt_"):
+        e = ALIAS_M_OBS.setdefault(meth, [0, 0])
+        e[0] += 1
+        e[1] += 1 if obs["delta"] else 0
     if changed and m_eff == 0:
         chk.disagree("c18.copy.effects", f"{tag}: the input changed ({obs['delta']}), the regenerated source facts list no write to self", spec)
     if m_eff > 0 and not changed and m_exc is None and obs["exc"] is None:
@@ -793,7 +843,58 @@ def run_ufuncs(chk, M, tier):
 # D. the npcatalog sweep (direct oracle only)
 
 
-def run_catalogue(chk, tier, seed):
+def check_alias_table(chk, M):
+    """the may-alias table read back: every live `__array_function__` handler is a routine of the table with the
+    parameter list `inspect.signature` reports (ties the ast abstraction to the live objects)"""
+    import inspect
+
+    try:
+        A = json.load(open(os.path.join(core.BUILD, "extract_c18_alias.json"), encoding="utf-8"))
+    except Exception as e:  # noqa: BLE001
+        chk.disagree("translator", f"no extract_c18_alias.json: {e}")
+        return
+    import unyt._array_functions as AF
+
+    hs = sorted({h.__name__: h for h in AF._HANDLED_FUNCTIONS.values()}.items())
+    reps = M.ask([f"c18.af.params\t{n}" for n, _ in hs] + ["c18.af.nroutines"])
+    for (n, h), rep in zip(hs, reps):
+        chk.case(("alias-table", n))
+        live = list(inspect.signature(h).parameters)
+        got = list(rep)
+        if got[0] != "ok" or [x for x in (got[1].split(",") if len(got) > 1 else []) if x] != live:
+            chk.disagree("c18.af.params", f"handler {n}: live parameters {live}, table {rep!r}")
+    if list(reps[-1]) != ["ok", str(len(A['routines']))]:
+        chk.disagree("c18.af.nroutines", f"driver table {reps[-1]!r} vs translator {len(A['routines'])}")
+    chk.count("alias:handlers-read-back", len(hs))
+
+
+def compare_alias_observations(chk, M, obs):
+    """catalogue observations vs the may-alias verdict: an operand bound to parameter p of handler h that CHANGED must
+    be a parameter the model says may be written (a change with verdict `false` contradicts array_functions_leave_inputs_intact:
+    the abstraction missed a write path)"""
+    hs = sorted({k.split("\t")[0] for k in obs})
+    reps = M.ask([f"c18.af.written\t{h}" for h in hs] + [f"c18.af.params\t{h}" for h in hs])
+    def names(r):
+        return [x for x in (r[1].split(",") if len(r) > 1 else []) if x]
+
+    written = {h: (names(r) if r and r[0] == "ok" else None) for h, r in zip(hs, reps[:len(hs)])}
+    params = {h: (names(r) if r and r[0] == "ok" else []) for h, r in zip(hs, reps[len(hs):])}
+    for k, (n, changed) in sorted(obs.items()):
+        h, par = k.split("\t")
+        chk.case(("alias-obs", h, par))
+        chk.count("alias:operand-observations", n)
+        if written[h] is None or par not in params[h]:
+            chk.disagree("c18.af.written", f"handler {h} parameter {par}: not in the regenerated table")
+            continue
+        if changed and par not in written[h]:
+            chk.disagree("c18.af.written", f"handler {h}: operand bound to parameter {par} changed in {changed} of {n} calls, the model's verdict is 'cannot be written' (written: {written[h]})")
+        elif par in written[h]:
+            chk.count("alias:verdict-may-write:" + ("observed" if changed else "not-observed"))
+        else:
+            chk.count("alias:verdict-intact:confirmed")
+
+
+def run_catalogue(chk, tier, seed, M=None):
     import multiprocessing
 
     import c18_cat as K
@@ -812,14 +913,22 @@ def run_catalogue(chk, tier, seed):
                 for r in range(2) for lo in range(0, n, step)]
     with multiprocessing.get_context("fork").Pool(4) as pool:
         results = pool.map(K.sweep, jobs, chunksize=1)
+    obs = {}
+    for res in results:
+        for k, (n_obs, n_chg) in res.get("obs", {}).items():
+            e = obs.setdefault(k, [0, 0])
+            e[0] += n_obs
+            e[1] += n_chg
+    if M is not None:
+        compare_alias_observations(chk, M, obs)
     for res in results:
         for k, v in res["stats"].items():
             chk.count("cat:" + k, v)
         for c in res["cases"]:
             chk.case(("cat",) + tuple(c))
         for key, f in res["fails"].items():
-            chk.fail(key, f["what"], {"python": K.replay_snippet(f["tid"], f["dk"], f["sc"], f["seed"], f["fault"], f["pos"], f["om"], f["alt"], key, HARNESS),
-                                      "case": {k: f[k] for k in ("tid", "dk", "sc", "seed", "fault", "pos", "om", "alt")}})
+            chk.fail(key, f["what"], {"python": K.replay_snippet(f["tid"], f["dk"], f["sc"], f["seed"], f["fault"], f["pos"], f["om"], f["alt"], key, HARNESS, f.get("fuse")),
+                                      "case": {k: f.get(k) for k in ("tid", "dk", "sc", "seed", "fault", "pos", "om", "alt", "fuse")}})
     chk.extra["catalogue_templates"] = n
 
 
@@ -912,8 +1021,10 @@ def run(tier, seed):
     gen._EXTRACT = None
     M = core.Model("drv_c18")
     check_tables(chk, M, X)
+    check_alias_table(chk, M)
     run_conversions(chk, M, tier)
+    compare_method_alias(chk, M)
     run_ufuncs(chk, M, tier)
     run_witnesses(chk)
-    run_catalogue(chk, tier, seed)
+    run_catalogue(chk, tier, seed, M)
     return chk.finish(RULE, "effect-ordering theorems + ast-regenerated statement order; snapshots validate the effect lists")
